@@ -5,6 +5,7 @@
 The scratch worktree lives under /tmp and is removed afterwards."""
 import os, shutil, subprocess, sys, tempfile
 prop, sdir = sys.argv[1:3]
+sdir = os.path.abspath(sdir)
 extra = sys.argv[3:]
 V = os.path.dirname(os.path.dirname(os.path.abspath(__file__)))
 d = tempfile.mkdtemp(prefix='pyvc_seed_')
